@@ -2,11 +2,10 @@ module verif/harness
 
 go 1.21
 
-require go.pennock.tech/tabular v0.0.0
-
 require (
-	github.com/mattn/go-runewidth v0.0.14 // indirect
-	github.com/rivo/uniseg v0.4.4 // indirect
+	github.com/mattn/go-runewidth v0.0.14
+	github.com/rivo/uniseg v0.4.4
+	go.pennock.tech/tabular v0.0.0
 )
 
 replace go.pennock.tech/tabular => /repo
